@@ -322,3 +322,9 @@ TEXT['C12']['level'] = ('PROOF on the model, end to end for the null test: Props
 PROPS['C13'].update(run_files=['Tie.v', 'TieWf.v', 'TieSim.v', 'PropsC02.v', 'PropsC03.v', 'PropsC13.v'],
                     static_files=PROPS['C13']['static_files'] + [f for f in TREE_STATIC if f not in PROPS['C13']['static_files']])
 TEXT['C13']['level'] = ('PROOF on the model: 256-way lemmas that the REGENERATED tokenTypes / whitespace tables are the fixed JSON tables (Tie.v); next_token_type_spec / next_token_spec closed forms (ExclusiveFacts); PropsC02.C13_ReadNull_exact / C13_ReadBool_exact: the literal readers over the regenerated tables equal the reference (exactly the four/five bytes after optional whitespace); PropsC13.C13_ReadNull_exclusive / C13_ReadBool_exclusive / C13_ReadArray_exclusive / C13_ReadObject_exclusive / C13_null_not_array_not_object: a typed reader succeeds only on a token NextTokenType classifies as its own type, null included (ReadArray / ReadObject through the C03 tree theorem); ExclusiveFacts.accepts_classified for the integer, float and string readers (hence at most one Read family accepts any input). Correspondence: every byte after 10 whitespace prefixes, every 1-byte corruption / truncation of the literals incl. long tails, sweeps of readNull / readBool, typed readers on null after a failing call on the same reader.')
+
+# the accelerated evaluator the driver runs on large documents agrees with the model of record (C03, C08, C15)
+for _p in ('C03', 'C08'):
+    PROPS[_p]['run_files'] = PROPS[_p]['run_files'] + ['PropsC03b.v']
+    PROPS[_p]['static_files'] = PROPS[_p]['static_files'] + ['TreeFast.v', 'TreeFastTie.v']
+TEXT['C03']['note'] = TEXT['C03']['note'] + ' The evaluator the driver runs on large documents (ReadValue_fast) is proved to agree with the model of record on the regenerated tables (PropsC03b.C03_fast_evaluator_agrees), and its table-indexed twin is tied in TieFast.v (functional extensionality).'
